@@ -72,6 +72,42 @@ pub fn universe() -> Vec<UVal> {
         UVal { label: "[[],[]]", v: V::arr(vec![V::arr(vec![]), V::arr(vec![])]) },
         UVal { label: "{k:1}", v: dict_only },
         UVal { label: "[1,a|null:true]", v: mixed },
+        // second ring: more boundaries of the numeric-string grammar, magnitudes and array shapes
+        UVal { label: "0.1", v: n(0.1) },
+        UVal { label: "100", v: n(100.0) },
+        UVal { label: "-1e21", v: n(-1e21) },
+        UVal { label: "1e-320", v: n(1e-320) },
+        UVal { label: "f64::MAX", v: n(f64::MAX) },
+        UVal { label: "2^32", v: n(4294967296.0) },
+        UVal { label: "\"+1\"", v: s("+1") },
+        UVal { label: "\"1.\"", v: s("1.") },
+        UVal { label: "\".5\"", v: s(".5") },
+        UVal { label: "\"0.0\"", v: s("0.0") },
+        UVal { label: "\"-1\"", v: s("-1") },
+        UVal { label: "\"1e21\"", v: s("1e21") },
+        UVal { label: "\"infinity\"", v: s("infinity") },
+        UVal { label: "\" \"", v: s(" ") },
+        UVal { label: "\"1 \"", v: s("1 ") },
+        UVal { label: "\"false\"", v: s("false") },
+        UVal { label: "\"ABC\"", v: s("ABC") },
+        UVal { label: "\"ab\"", v: s("ab") },
+        UVal { label: "[0]", v: V::arr(vec![n(0.0)]) },
+        UVal { label: "[\"\"]", v: V::arr(vec![s("")]) },
+        UVal { label: "[null]", v: V::arr(vec![V::Null]) },
+        UVal { label: "[true]", v: V::arr(vec![V::Bool(true)]) },
+        UVal { label: "[a,b]", v: V::arr(vec![s("a"), s("b")]) },
+        UVal { label: "[NaN]", v: V::arr(vec![n(f64::NAN)]) },
+        UVal {
+            label: "{k:1,j:2}",
+            v: V::Arr(Box::new(ArrV {
+                seq: vec![],
+                dict: vec![(Key::Str("k".into()), V::Num(1.0)), (Key::Str("j".into()), V::Num(2.0))],
+            })),
+        },
+        UVal {
+            label: "[1|k:1]",
+            v: V::Arr(Box::new(ArrV { seq: vec![V::Num(1.0)], dict: vec![(Key::Str("k".into()), V::Num(1.0))] })),
+        },
     ]
 }
 
